@@ -51,6 +51,11 @@ var registry = map[string]*Check{}
 
 func Register(c *Check) { registry[c.ID] = c }
 
+// Children are helper entry points run in a separate process ("vcheck child <name> args...").
+var children = map[string]func(args []string){}
+
+func RegisterChild(name string, fn func(args []string)) { children[name] = fn }
+
 type Violation struct {
 	Sig    string          `json:"sig"`
 	Detail string          `json:"detail"`
@@ -241,6 +246,15 @@ func Main() {
 		os.Exit(2)
 	}
 	id := os.Args[1]
+	if id == "child" && len(os.Args) >= 3 {
+		fn := children[os.Args[2]]
+		if fn == nil {
+			fmt.Fprintf(os.Stderr, "unknown child %q\n", os.Args[2])
+			os.Exit(2)
+		}
+		fn(os.Args[3:])
+		return
+	}
 	fs := flag.NewFlagSet("vcheck", flag.ExitOnError)
 	tier := fs.String("tier", "quick", "")
 	replay := fs.String("replay", "", "")
